@@ -107,6 +107,10 @@ def _geo(rng, i):
         o = (round(rng.uniform(-5, 5), 6), round(rng.uniform(-5, 5), 6))
     else:
         d = _DS[(i // 3) % len(_DS)]
+    if i % 7 == 3 and o != (0.0, 0.0):
+        d = (-o[0], -o[1])             # the translated frame sits EXACTLY at the default origin (0, 0): nothing special about it
+    elif i % 7 == 5 and o != (0.0, 0.0):
+        d = (-o[0], d[1])              # ... or has exactly one zero component
     return {"pixel_scales": s, "origin": o, "d": d}
 
 
@@ -192,6 +196,16 @@ def grids_from_mask(mask, pixel_scales, origin, d):
         for n in ("unmasked_slim", "masked_slim", "edge_slim", "edge_native", "border_slim", "border_native", "native_for_slim"):
             out.append(_safe("derive_indexes." + n, "same", lambda n=n: getattr(mk.derive_indexes, n)))
         out.append(("pixels_in_mask", "same", mk.pixels_in_mask))
+        # the same frame reached from a Mask2D / Grid2D that lives at ANOTHER origin (re-origin routes)
+        elsewhere = aa.Mask2D(mask=mask.copy(), pixel_scales=pixel_scales, origin=(1.25, -0.5))
+        re = aa.Mask2D(mask=elsewhere, pixel_scales=pixel_scales, origin=o)
+        out.append(("Mask2D(mask=<Mask2D at (1.25,-0.5)>, origin=o).origin", "coord", re.origin))
+        out.append(_safe("Grid2D.from_mask(Mask2D(mask=<Mask2D at (1.25,-0.5)>, origin=o))", "coord", lambda: aa.Grid2D.from_mask(mask=re)))
+        out.append(_safe("extent of Mask2D(mask=<Mask2D elsewhere>, origin=o)", "extent", lambda: re.geometry.extent))
+        sub = aa.Grid2D.from_mask(mask=elsewhere).subtracted_from(offset=(1.25 - o[0], -0.5 - o[1]))
+        out.append(("Grid2D.from_mask(<elsewhere>).subtracted_from(offset to o)", "coord", sub))
+        out.append(("...subtracted_from(...).mask.origin", "coord", sub.mask.origin))
+        out.append(_safe("grid regenerated from ...subtracted_from(...).mask", "coord", lambda: _grid_of(sub.mask)))
         return out
     return _two_runs(build, origin, d)
 
